@@ -11,7 +11,10 @@ package remote
 //   op line:  C05 hist <cfg> <dom0> <dom1> <msgs>
 //     cfg  = <mtasts><preload><dane><dnssec>.<local: - | <minTLS><minMX>>.<override><relaxed>.<reuseLimit>
 //     dom  = <mxAD><sts a|n|t|e>:<mx>[;<mx>]     (MX candidates in preference order)
-//     mx   = <srv>.<up>.<starttls o|s|h|c>.<cert v|u|w>[<chain 1-6>].<stsMatch>.<aAD>.<tlsaAD>.<tlsa n|e|t|m|u|f|p|i|a>.<reqtls>.<slow TLSA answer>[.<alias>]
+//     mx   = <srv>.<up>[<fam 6|b|x>].<starttls o|s|h|c>.<cert v|u|w>[<chain 1-6>].<stsMatch>.<aAD>.<tlsaAD>.<tlsa n|e|t|m|u|f|p|i|a>.<reqtls>.<slow TLSA answer>[.<alias>]
+//     fam  = address records of the MX host (of the canonical name when it is an alias): none = an A record, 6 = an AAAA
+//            record only (IPv6-only host), b = both.  IPv6 addresses are
+//            fd00:c05::<n>; the harness's dialer (which stands for the network) carries them to 127.0.0.<n>.
 //     chain = shape of the certificate chain the server presents: none = [leaf, issuer]; 1 [leaf, G], 2 [leaf, issuer, G],
 //            3 [leaf, G, issuer] with G = the GENUINE MX's end-entity certificate (trusted issuer, right names; the server
 //            does not hold its key); 4-6 the same with F = a foreign self-signed CA certificate in the place of G.
@@ -35,6 +38,18 @@ package remote
 //            released, the other deliveries run to completion (body, commit in order; the victim is aborted).
 //            The remaining messages follow one after the other as in a `hist` case.  The victim's observation is `x`.
 //
+//   op line:  C05 via <front q|p> <cfg> <dom0> <dom1> <vmsgs>     the messages reach the remote target THROUGH the real queue
+//     front = q: the harness is the message source and drives the real queue.Queue (Target = the remote target) in the
+//            call order of msgpipeline: Start, AddRcpt…, [the meta-data object is updated: body stage], Body, Commit;
+//            p: the real msgpipeline (one scripted check, deliver_to the queue) is driven in the call order of an SMTP endpoint
+//            (Start, AddRcpt…, [the endpoint updates the object after it has read the header], Body, Commit).
+//     vmsg  = <init>><final>[@<stage c|s|r|b>]:<dom>[,<dom>…]     init / final = <requireTLS><tlsRequiredNo><quarantine><smtputf8>:
+//            the content of the source's MsgMetadata object when the delivery starts and when the body stage ends.  With
+//            front p the quarantine flag is raised by the scripted check at <stage> (connection / sender / recipient / body;
+//            msgpipeline applies check results at the body stage).  The queue attempts the delivery after Commit; what it
+//            hands to the remote target must be the FINAL content.  Every server implements SMTPUTF8 here.
+//   observation: as for `hist`, every DATA item has a 5th field: SMTPUTF8 parameter of the MAIL command.
+//
 // The monitor (c05Monitor) evaluates the property from the scripted ground truth and what the
 // servers received; it does not look at the model or at the levels the code computed.
 
@@ -53,6 +68,7 @@ import (
 	"io"
 	"math/big"
 	"net"
+	"os"
 	"reflect"
 	"sort"
 	"strconv"
@@ -72,6 +88,8 @@ import (
 	"github.com/foxcpp/maddy/framework/exterrors"
 	"github.com/foxcpp/maddy/framework/log"
 	"github.com/foxcpp/maddy/framework/module"
+	"github.com/foxcpp/maddy/internal/msgpipeline"
+	"github.com/foxcpp/maddy/internal/target/queue"
 	"github.com/foxcpp/maddy/internal/verifshim/vh"
 	miekgdns "github.com/miekg/dns"
 )
@@ -97,6 +115,9 @@ type c05MX struct {
 	tlsaI    byte // TLSA RRset at _25._tcp.<MX name>: n none (NXDOMAIN), e, t, m, u, f as for tlsa
 	tlsaIAD  bool // AD on that lookup
 	cnameErr bool // the CNAME-type query for the MX name fails (SERVFAIL)
+	// address families of the (canonical) host name: 0 an A record only, '6' an AAAA record only, 'b' both.  One zone, one AD bit: aAD is the AD bit of
+	// whichever address RRsets exist.
+	fam byte
 }
 
 type c05Dom struct {
@@ -117,6 +138,25 @@ type c05Msg struct {
 	requireTLS, tlsNo bool
 	quarantine        int // 0 no, 1 set before the first recipient, 2 set after the recipients, before the body
 	rcpts             []int
+	// `via` cases only.  The fields above are then the FINAL content of the source's meta-data object (the remote target
+	// starts after the body stage: a quarantined message has quarantine == 1); via.init is its content at Start.
+	utf8 bool
+	via  *c05MsgVia
+}
+
+type c05Flags struct{ requireTLS, tlsNo, quarantine, utf8 bool }
+
+func (f c05Flags) String() string {
+	return c05b(f.requireTLS) + c05b(f.tlsNo) + c05b(f.quarantine) + c05b(f.utf8)
+}
+
+type c05MsgVia struct {
+	init  c05Flags
+	stage byte // front p: the stage at which the scripted check asks for quarantine (0: it does not)
+}
+
+func (m c05Msg) final() c05Flags {
+	return c05Flags{m.requireTLS, m.tlsNo, m.quarantine != 0, m.utf8}
 }
 
 type c05Hist struct {
@@ -124,6 +164,7 @@ type c05Hist struct {
 	doms [2]c05Dom
 	msgs []c05Msg
 	conc *c05Conc // nil: consecutive messages
+	front byte    // 0: the remote target is driven directly; q / p: through the real queue / msgpipeline + queue
 }
 
 // overlapping deliveries: see the op line description
@@ -148,7 +189,11 @@ func (m c05MX) String() string {
 	if m.chain != 0 {
 		cert += string(m.chain)
 	}
-	s := fmt.Sprintf("%d.%s.%c.%s.%s.%s.%s.%c.%s.%s", m.srv, c05b(m.up), m.starttls, cert, c05b(m.stsMatch), c05b(m.aAD), c05b(m.tlsaAD), m.tlsa, c05b(m.reqtls), c05b(m.slow))
+	up := c05b(m.up)
+	if m.fam != 0 {
+		up += string(m.fam)
+	}
+	s := fmt.Sprintf("%d.%s.%c.%s.%s.%s.%s.%c.%s.%s", m.srv, up, m.starttls, cert, c05b(m.stsMatch), c05b(m.aAD), c05b(m.tlsaAD), m.tlsa, c05b(m.reqtls), c05b(m.slow))
 	if m.alias != 0 {
 		s += fmt.Sprintf(".%c%c%s%s", m.alias, m.tlsaI, c05b(m.tlsaIAD), c05b(m.cnameErr))
 	}
@@ -176,6 +221,13 @@ func (m c05Msg) String() string {
 	for _, r := range m.rcpts {
 		rs = append(rs, strconv.Itoa(r))
 	}
+	if m.via != nil {
+		st := ""
+		if m.via.stage != 0 {
+			st = "@" + string(m.via.stage)
+		}
+		return fmt.Sprintf("%s>%s%s:%s", m.via.init, m.final(), st, strings.Join(rs, ","))
+	}
 	return fmt.Sprintf("%s%s%d:%s", c05b(m.requireTLS), c05b(m.tlsNo), m.quarantine, strings.Join(rs, ","))
 }
 
@@ -183,6 +235,9 @@ func (h c05Hist) Op() string {
 	var ms []string
 	for _, m := range h.msgs {
 		ms = append(ms, m.String())
+	}
+	if h.front != 0 {
+		return fmt.Sprintf("C05 via %c %s %s %s %s", h.front, h.cfg, h.doms[0], h.doms[1], strings.Join(ms, "/"))
 	}
 	if h.conc != nil {
 		return fmt.Sprintf("C05 conc %s %s %s %s %s", h.cfg, h.doms[0], h.doms[1], *h.conc, strings.Join(ms, "/"))
@@ -205,15 +260,20 @@ func c05KindOK(kind, chain byte) bool {
 
 func c05ParseMX(s string) (c05MX, error) {
 	f := strings.Split(s, ".")
-	if (len(f) != 10 && len(f) != 11) || len(f[2]) != 1 || (len(f[3]) != 1 && len(f[3]) != 2) || len(f[7]) != 1 {
+	if (len(f) != 10 && len(f) != 11) || (len(f[1]) != 1 && len(f[1]) != 2) || len(f[2]) != 1 || (len(f[3]) != 1 && len(f[3]) != 2) || len(f[7]) != 1 {
 		return c05MX{}, errors.New("bad mx " + s)
 	}
 	srv, err := strconv.Atoi(f[0])
 	if err != nil {
 		return c05MX{}, err
 	}
-	m := c05MX{srv: srv, up: f[1] == "1", starttls: f[2][0], cert: f[3][0], stsMatch: f[4] == "1", aAD: f[5] == "1",
+	m := c05MX{srv: srv, up: f[1][0] == '1', starttls: f[2][0], cert: f[3][0], stsMatch: f[4] == "1", aAD: f[5] == "1",
 		tlsaAD: f[6] == "1", tlsa: f[7][0], reqtls: f[8] == "1", slow: f[9] == "1"}
+	if len(f[1]) == 2 {
+		if m.fam = f[1][1]; m.fam != '6' && m.fam != 'b' {
+			return c05MX{}, errors.New("bad address family " + s)
+		}
+	}
 	if len(f[3]) == 2 {
 		if m.chain = f[3][1]; m.chain < '1' || m.chain > '6' {
 			return c05MX{}, errors.New("bad chain " + s)
@@ -261,6 +321,12 @@ func c05ParseOp(op string) (c05Hist, error) {
 			return h, errors.New("bad script")
 		}
 		t = append(t[:5:5], t[6])
+	} else if len(t) == 7 && t[0] == "C05" && t[1] == "via" {
+		if t[2] != "q" && t[2] != "p" {
+			return h, errors.New("bad front")
+		}
+		h.front = t[2][0]
+		t = append(t[:2:2], t[3:]...)
 	} else if len(t) != 6 || t[0] != "C05" || t[1] != "hist" {
 		return h, errors.New("bad op")
 	}
@@ -288,10 +354,17 @@ func c05ParseOp(op string) (c05Hist, error) {
 	}
 	for _, ms := range strings.Split(t[5], "/") {
 		parts := strings.SplitN(ms, ":", 2)
-		if len(parts) != 2 || len(parts[0]) != 3 {
-			return h, errors.New("bad msg " + ms)
+		var m c05Msg
+		if h.front != 0 {
+			if m, err = c05ParseVia(parts, h.front); err != nil {
+				return h, err
+			}
+		} else {
+			if len(parts) != 2 || len(parts[0]) != 3 {
+				return h, errors.New("bad msg " + ms)
+			}
+			m = c05Msg{requireTLS: parts[0][0] == '1', tlsNo: parts[0][1] == '1', quarantine: int(parts[0][2] - '0')}
 		}
-		m := c05Msg{requireTLS: parts[0][0] == '1', tlsNo: parts[0][1] == '1', quarantine: int(parts[0][2] - '0')}
 		for _, rs := range strings.Split(parts[1], ",") {
 			r, err := strconv.Atoi(rs)
 			if err != nil || r < 0 || r > 1 {
@@ -305,6 +378,38 @@ func c05ParseOp(op string) (c05Hist, error) {
 		return h, errors.New("ill-formed batch")
 	}
 	return h, nil
+}
+
+// <init>><final>[@<stage>] of a `via` message (the same rules as `parseVMsg` of the Lean driver): the quarantine flag is
+// never taken back; with front p it is raised by the check (a stage is given) or not at all
+func c05ParseVia(parts []string, front byte) (c05Msg, error) {
+	bad := errors.New("bad via msg " + strings.Join(parts, ":"))
+	if len(parts) != 2 {
+		return c05Msg{}, bad
+	}
+	fl, stage := parts[0], byte(0)
+	if i := strings.IndexByte(fl, '@'); i >= 0 {
+		if front != 'p' || len(fl) != i+2 || !strings.ContainsRune("csrb", rune(fl[i+1])) {
+			return c05Msg{}, bad
+		}
+		fl, stage = fl[:i], fl[i+1]
+	}
+	if len(fl) != 9 || fl[4] != '>' || strings.Trim(fl[:4]+fl[5:], "01") != "" {
+		return c05Msg{}, bad
+	}
+	bit := func(i int) bool { return fl[i] == '1' }
+	init := c05Flags{bit(0), bit(1), bit(2), bit(3)}
+	m := c05Msg{requireTLS: bit(5), tlsNo: bit(6), utf8: bit(8), via: &c05MsgVia{init: init, stage: stage}}
+	if bit(7) {
+		m.quarantine = 1
+	}
+	if init.quarantine && !bit(7) {
+		return c05Msg{}, bad
+	}
+	if front == 'p' && bit(7) != (init.quarantine || stage != 0) {
+		return c05Msg{}, bad
+	}
+	return m, nil
 }
 
 // well-formed batch (the same rule as `concOK` of the Lean driver): at least k messages; every overlapping delivery
@@ -472,6 +577,7 @@ type c05Event struct {
 	tls    bool
 	rtParm bool
 	reused bool
+	utf8   bool // SMTPUTF8 parameter of the MAIL command
 }
 
 type c05World struct {
@@ -503,6 +609,7 @@ type c05Session struct {
 	conn   *smtp.Conn
 	rt     bool
 	reused bool
+	utf8   bool
 	msg    int
 }
 
@@ -519,11 +626,12 @@ func (s *c05Session) Mail(from string, opts *smtp.MailOptions) error {
 	defer w.mu.Unlock()
 	key := fmt.Sprintf("%d/%s", s.b.srv, s.conn.Conn().RemoteAddr())
 	s.rt = opts != nil && opts.RequireTLS
+	s.utf8 = opts != nil && opts.UTF8
 	s.reused = w.mails[key] > 0
 	s.msg = c05MsgOfSender(from)
 	w.mails[key]++
 	_, isTLS := s.conn.TLSConnectionState()
-	w.events = append(w.events, c05Event{msg: s.msg, srv: s.b.srv, kind: "mail", tls: isTLS, rtParm: s.rt, reused: s.reused})
+	w.events = append(w.events, c05Event{msg: s.msg, srv: s.b.srv, kind: "mail", tls: isTLS, rtParm: s.rt, reused: s.reused, utf8: s.utf8})
 	return nil
 }
 
@@ -537,7 +645,7 @@ func (s *c05Session) Data(r io.Reader) error {
 	w.mu.Lock()
 	defer w.mu.Unlock()
 	_, isTLS := s.conn.TLSConnectionState()
-	w.events = append(w.events, c05Event{msg: s.msg, srv: s.b.srv, kind: "data", tls: isTLS, rtParm: s.rt, reused: s.reused})
+	w.events = append(w.events, c05Event{msg: s.msg, srv: s.b.srv, kind: "data", tls: isTLS, rtParm: s.rt, reused: s.reused, utf8: s.utf8})
 	return nil
 }
 
@@ -588,6 +696,7 @@ func c05StartServer(t *testing.T, w *c05World, pki *c05PKI, mx c05MX) (*smtp.Ser
 	s.Domain = "localhost"
 	s.AllowInsecureAuth = true
 	s.EnableREQUIRETLS = mx.reqtls
+	s.EnableSMTPUTF8 = true
 	s.ErrorLog = c05NopLog{}
 	if mx.starttls != 's' {
 		s.TLSConfig = &tls.Config{Certificates: []tls.Certificate{pki.tlsCert(mx.cert, mx.chain)}}
@@ -648,6 +757,61 @@ func c05TLSAZone(z map[string]mockdns.Zone, pki *c05PKI, tn string, kind byte, m
 	// 'n': no such name (NXDOMAIN)
 }
 
+// the address RRsets of an MX host: 127.0.0.<srv> / fd00:c05::<srv> (10+srv when the server is down: nothing listens there)
+func c05AddrZone(m c05MX, ad bool) mockdns.Zone {
+	n := m.srv
+	if !m.up {
+		n += 10
+	}
+	z := mockdns.Zone{AD: ad}
+	if m.fam == 0 || m.fam == 'b' {
+		z.A = []string{fmt.Sprintf("127.0.0.%d", n)}
+	}
+	if m.fam == '6' || m.fam == 'b' {
+		z.AAAA = []string{fmt.Sprintf("fd00:c05::%d", n)}
+	}
+	return z
+}
+
+// The network of the scripted world: host names are resolved in the zones (IPv6 addresses first, as the repo's mockdns
+// test dialer does), fd00:c05::<n> is the same machine as 127.0.0.<n>.
+func c05Dialer(zones map[string]mockdns.Zone) func(ctx context.Context, network, addr string) (net.Conn, error) {
+	res := &mockdns.Resolver{Zones: zones}
+	return func(ctx context.Context, network, addr string) (net.Conn, error) {
+		host, port, err := net.SplitHostPort(addr)
+		if err != nil {
+			return nil, err
+		}
+		addrs := []string{host}
+		if net.ParseIP(host) == nil {
+			all, err := res.LookupHost(ctx, host)
+			if err != nil {
+				return nil, err
+			}
+			addrs = nil
+			for _, pass := range []bool{true, false} {
+				for _, a := range all {
+					if strings.Contains(a, ":") == pass {
+						addrs = append(addrs, a)
+					}
+				}
+			}
+		}
+		var lastErr error
+		for _, a := range addrs {
+			if strings.HasPrefix(a, "fd00:c05::") {
+				a = "127.0.0." + strings.TrimPrefix(a, "fd00:c05::")
+			}
+			conn, err := net.Dial(network, net.JoinHostPort(a, port))
+			if err == nil {
+				return conn, nil
+			}
+			lastErr = err
+		}
+		return nil, lastErr
+	}
+}
+
 func c05Zones(h c05Hist, pki *c05PKI) map[string]mockdns.Zone {
 	z := map[string]mockdns.Zone{}
 	for di, d := range h.doms {
@@ -655,12 +819,8 @@ func c05Zones(h c05Hist, pki *c05PKI) map[string]mockdns.Zone {
 		for i, m := range d.mxs {
 			host := c05MXHost(m)
 			mxs = append(mxs, net.MX{Host: host, Pref: uint16(10 * (i + 1))})
-			a := fmt.Sprintf("127.0.0.%d", m.srv)
-			if !m.up {
-				a = fmt.Sprintf("127.0.0.%d", 10+m.srv) // nothing listens there
-			}
 			if m.alias == 0 {
-				z[host] = mockdns.Zone{AD: m.aAD, A: []string{a}}
+				z[host] = c05AddrZone(m, m.aAD)
 				c05TLSAZone(z, pki, "_25._tcp."+host, m.tlsa, m, m.tlsaAD)
 				continue
 			}
@@ -668,7 +828,7 @@ func c05Zones(h c05Hist, pki *c05PKI) map[string]mockdns.Zone {
 			// signed (mockdns conjoins along the chain); the CNAME-type query reports the alias zone alone
 			canon := c05CanonHost(m)
 			z[host] = mockdns.Zone{AD: m.alias == 's', CNAME: canon}
-			z[canon] = mockdns.Zone{AD: m.aAD, A: []string{a}}
+			z[canon] = c05AddrZone(m, m.aAD)
 			c05TLSAZone(z, pki, "_25._tcp."+canon, m.tlsa, m, m.aAD && m.tlsaAD)
 			c05TLSAZone(z, pki, "_25._tcp."+host, m.tlsaI, m, m.tlsaIAD)
 		}
@@ -796,7 +956,7 @@ func c05Setup(t *testing.T, h c05Hist, pki *c05PKI, rng *vh.Rng, verbose bool) *
 	}
 	// The production dialer ((&net.Dialer{}).DialContext) does not dial on a context that is done; the mockdns dialer
 	// of the repo's test helper ignores its context.
-	mockDial := tgt.dialer
+	mockDial := c05Dialer(zones)
 	tgt.dialer = func(ctx context.Context, network, addr string) (net.Conn, error) {
 		if err := ctx.Err(); err != nil {
 			return nil, &net.OpError{Op: "dial", Net: network, Err: err}
@@ -1018,6 +1178,7 @@ type c05MsgObs struct {
 	rcpt   []string // per recipient, in order: ok|temp|perm (after the body stage)
 	errs   []string
 	victim bool // the delivery was cancelled and aborted: its recipient results are not part of the observation
+	handed *c05Flags // `via` cases: the meta-data the queue started the remote target with
 }
 
 // one delivery through the target, in the three stages its caller drives
@@ -1100,6 +1261,9 @@ func c05Run(t *testing.T, h c05Hist, env *c05Env) []c05MsgObs {
 	ctx := context.Background()
 	var obs []c05MsgObs
 	first := 0
+	if h.front != 0 {
+		return c05RunVia(t, h, env)
+	}
 	if h.conc != nil {
 		obs = c05RunConc(t, h, env)
 		first = h.conc.k
@@ -1109,6 +1273,289 @@ func c05Run(t *testing.T, h c05Hist, env *c05Env) []c05MsgObs {
 		dl.addRcpts(ctx)
 		dl.finish(t, ctx)
 		obs = append(obs, dl.o)
+	}
+	return obs
+}
+
+// ---------------------------------------------------------------- through the real queue / msgpipeline
+
+// c05Proxy stands between the queue and the remote target of the case: it forwards every call unchanged and records what
+// the queue handed over (the meta-data at Start) and what the remote target answered per recipient.
+type c05Proxy struct {
+	inner module.DeliveryTarget
+	mu    sync.Mutex
+	runs  map[int]*c05ProxyRun // by message index (sender address)
+}
+
+type c05ProxyRun struct {
+	mu      sync.Mutex
+	started bool
+	handed  c05Flags         // the meta-data the remote target was started with
+	rcpt    map[string]error // AddRcpt results
+	status  map[string]error // BodyNonAtomic statuses
+	hasSt   map[string]bool
+	done    chan struct{} // closed when the attempt is over (Commit / Abort returned, or Start failed)
+	over    bool
+}
+
+func (p *c05Proxy) run(mi int) *c05ProxyRun {
+	p.mu.Lock()
+	defer p.mu.Unlock()
+	r := p.runs[mi]
+	if r == nil {
+		r = &c05ProxyRun{rcpt: map[string]error{}, status: map[string]error{}, hasSt: map[string]bool{}, done: make(chan struct{})}
+		p.runs[mi] = r
+	}
+	return r
+}
+
+func (r *c05ProxyRun) end() {
+	r.mu.Lock()
+	defer r.mu.Unlock()
+	if !r.over {
+		r.over = true
+		close(r.done)
+	}
+}
+
+func (p *c05Proxy) Start(ctx context.Context, meta *module.MsgMetadata, from string) (module.Delivery, error) {
+	r := p.run(c05MsgOfSender(from))
+	r.mu.Lock()
+	r.started = true
+	r.handed = c05Flags{meta.SMTPOpts.RequireTLS, meta.TLSRequireOverride, meta.Quarantine, meta.SMTPOpts.UTF8}
+	r.mu.Unlock()
+	d, err := p.inner.Start(ctx, meta, from)
+	if err != nil {
+		r.end()
+		return nil, err
+	}
+	return &c05ProxyDelivery{r: r, d: d}, nil
+}
+
+type c05ProxyDelivery struct {
+	r *c05ProxyRun
+	d module.Delivery
+}
+
+func (pd *c05ProxyDelivery) AddRcpt(ctx context.Context, to string, opts smtp.RcptOptions) error {
+	err := pd.d.AddRcpt(ctx, to, opts)
+	pd.r.mu.Lock()
+	pd.r.rcpt[to] = err
+	pd.r.mu.Unlock()
+	return err
+}
+
+func (pd *c05ProxyDelivery) SetStatus(to string, err error) {
+	pd.r.mu.Lock()
+	pd.r.status[to], pd.r.hasSt[to] = err, true
+	pd.r.mu.Unlock()
+}
+
+type c05Tee struct {
+	pd *c05ProxyDelivery
+	sc module.StatusCollector
+}
+
+func (t c05Tee) SetStatus(to string, err error) {
+	t.pd.SetStatus(to, err)
+	t.sc.SetStatus(to, err)
+}
+
+func (pd *c05ProxyDelivery) BodyNonAtomic(ctx context.Context, sc module.StatusCollector, hdr textproto.Header, b buffer.Buffer) {
+	pd.d.(module.PartialDelivery).BodyNonAtomic(ctx, c05Tee{pd, sc}, hdr, b)
+}
+
+func (pd *c05ProxyDelivery) Body(ctx context.Context, hdr textproto.Header, b buffer.Buffer) error {
+	return pd.d.Body(ctx, hdr, b)
+}
+
+func (pd *c05ProxyDelivery) Abort(ctx context.Context) error {
+	defer pd.r.end()
+	return pd.d.Abort(ctx)
+}
+
+func (pd *c05ProxyDelivery) Commit(ctx context.Context) error {
+	defer pd.r.end()
+	return pd.d.Commit(ctx)
+}
+
+// what the configuration names resolve to; the case that is running is in c05Cur (cases run one after the other)
+var c05Cur struct {
+	proxy *c05Proxy
+	q     *queue.Queue
+	stage byte // the stage at which the scripted check asks for quarantine
+}
+
+type c05RemoteRef struct{}
+
+func (c05RemoteRef) Init(*config.Map) error { return nil }
+func (c05RemoteRef) Name() string           { return "verif_c05_remote" }
+func (c05RemoteRef) InstanceName() string   { return "verif_c05_remote" }
+func (c05RemoteRef) Start(ctx context.Context, meta *module.MsgMetadata, from string) (module.Delivery, error) {
+	return c05Cur.proxy.Start(ctx, meta, from)
+}
+
+type c05QueueRef struct{}
+
+func (c05QueueRef) Init(*config.Map) error { return nil }
+func (c05QueueRef) Name() string           { return "verif_c05_queue" }
+func (c05QueueRef) InstanceName() string   { return "verif_c05_queue" }
+func (c05QueueRef) Start(ctx context.Context, meta *module.MsgMetadata, from string) (module.Delivery, error) {
+	return c05Cur.q.Start(ctx, meta, from)
+}
+
+// the scripted check: asks for quarantine at one stage
+type c05Check struct{}
+
+func (c05Check) Init(*config.Map) error { return nil }
+func (c05Check) Name() string           { return "verif_c05_chk" }
+func (c05Check) InstanceName() string   { return "verif_c05_chk" }
+func (c05Check) CheckStateForMsg(context.Context, *module.MsgMetadata) (module.CheckState, error) {
+	return &c05CheckState{stage: c05Cur.stage}, nil
+}
+
+type c05CheckState struct{ stage byte }
+
+func (s *c05CheckState) at(stage byte) module.CheckResult {
+	if s.stage == stage {
+		return module.CheckResult{Quarantine: true, Reason: &exterrors.SMTPError{Code: 550, EnhancedCode: exterrors.EnhancedCode{5, 7, 1}, Message: "scripted quarantine", CheckName: "verif_c05_chk"}}
+	}
+	return module.CheckResult{}
+}
+func (s *c05CheckState) CheckConnection(context.Context) module.CheckResult     { return s.at('c') }
+func (s *c05CheckState) CheckSender(context.Context, string) module.CheckResult { return s.at('s') }
+func (s *c05CheckState) CheckRcpt(context.Context, string) module.CheckResult   { return s.at('r') }
+func (s *c05CheckState) CheckBody(context.Context, textproto.Header, buffer.Buffer) module.CheckResult {
+	return s.at('b')
+}
+func (s *c05CheckState) Close() error { return nil }
+
+var (
+	c05PipeOnce sync.Once
+	c05Pipe     *msgpipeline.MsgPipeline
+)
+
+// registers the named instances and builds the pipeline (msgpipeline.New, from configuration nodes) once
+func c05Front() *msgpipeline.MsgPipeline {
+	c05PipeOnce.Do(func() {
+		module.RegisterInstance(c05RemoteRef{}, nil)
+		module.RegisterInstance(c05QueueRef{}, nil)
+		module.Register("check.verif_c05_chk", func(_, _ string, _, _ []string) (module.Module, error) { return c05Check{}, nil })
+		p, err := msgpipeline.New(map[string]interface{}{}, []config.Node{
+			{Name: "check", Children: []config.Node{{Name: "verif_c05_chk"}}},
+			{Name: "default_source", Children: []config.Node{
+				{Name: "default_destination", Children: []config.Node{{Name: "deliver_to", Args: []string{"&verif_c05_queue"}}}},
+			}},
+		})
+		if err != nil {
+			panic(err)
+		}
+		p.Log = log.Logger{Out: log.NopOutput{}}
+		p.Hostname = "c05.invalid"
+		c05Pipe = p
+	})
+	return c05Pipe
+}
+
+func c05RunVia(t *testing.T, h c05Hist, env *c05Env) []c05MsgObs {
+	pipe := c05Front()
+	dir, err := os.MkdirTemp("", "c05q")
+	if err != nil {
+		t.Fatal(err)
+	}
+	defer os.RemoveAll(dir)
+	mod, err := queue.NewQueue("target.queue", "verif_c05_q", nil, nil)
+	if err != nil {
+		t.Fatal(err)
+	}
+	q := mod.(*queue.Queue)
+	q.Log = log.Logger{Out: log.NopOutput{}, Name: "c05queue"}
+	proxy := &c05Proxy{inner: env.tgt, runs: map[int]*c05ProxyRun{}}
+	c05Cur.proxy, c05Cur.q = proxy, q
+	if err := q.Init(config.NewMap(map[string]interface{}{"hostname": "c05.invalid"}, config.Node{Children: []config.Node{
+		{Name: "target", Args: []string{"&verif_c05_remote"}},
+		{Name: "location", Args: []string{dir}},
+		{Name: "max_tries", Args: []string{"1"}},
+	}})); err != nil {
+		t.Fatal("queue Init: ", err)
+	}
+	defer q.Close()
+
+	ctx := context.Background()
+	var obs []c05MsgObs
+	for mi, m := range h.msgs {
+		in, fin := m.via.init, m.final()
+		meta := &module.MsgMetadata{
+			ID:                 fmt.Sprintf("c05msg%d", mi),
+			OriginalFrom:       c05Sender(mi),
+			DontTraceSender:    true,
+			SMTPOpts:           smtp.MailOptions{RequireTLS: in.requireTLS, UTF8: in.utf8},
+			TLSRequireOverride: in.tlsNo,
+			Quarantine:         in.quarantine,
+		}
+		var src module.DeliveryTarget = q
+		if h.front == 'p' {
+			src = pipe
+			c05Cur.stage = m.via.stage
+		}
+		d, err := src.Start(ctx, meta, c05Sender(mi))
+		if err != nil {
+			t.Fatal("front Start: ", err)
+		}
+		addrs := make([]string, len(m.rcpts))
+		for i, dom := range m.rcpts {
+			addrs[i] = fmt.Sprintf("u%d@d%d.invalid", i, dom)
+			if err := d.AddRcpt(ctx, addrs[i], smtp.RcptOptions{}); err != nil {
+				t.Fatal("front AddRcpt: ", err)
+			}
+		}
+		// the body stage: the source updates ITS meta-data object (an SMTP endpoint does after it has read the header:
+		// TLS-Required; msgpipeline does when it applies the check results: Quarantine — front p leaves that to it)
+		meta.SMTPOpts.RequireTLS, meta.SMTPOpts.UTF8, meta.TLSRequireOverride = fin.requireTLS, fin.utf8, fin.tlsNo
+		if h.front == 'q' {
+			meta.Quarantine = fin.quarantine
+		}
+		hdr := textproto.Header{}
+		hdr.Add("Subject", "c05")
+		if err := d.Body(ctx, hdr, buffer.MemoryBuffer{Slice: []byte("secret content\r\n")}); err != nil {
+			t.Fatal("front Body: ", err)
+		}
+		if got := (c05Flags{meta.SMTPOpts.RequireTLS, meta.TLSRequireOverride, meta.Quarantine, meta.SMTPOpts.UTF8}); got != fin {
+			t.Fatalf("c05 via: the source's meta-data after the body stage is %s, the op line says %s: %s", got, fin, h.Op())
+		}
+		if err := d.Commit(ctx); err != nil {
+			t.Fatal("front Commit: ", err)
+		}
+		// the queue attempts the delivery on its own goroutine: wait until the attempt is over
+		r := proxy.run(mi)
+		o := c05MsgObs{rcpt: make([]string, len(m.rcpts)), errs: make([]string, len(m.rcpts))}
+		select {
+		case <-r.done:
+		case <-time.After(c05WaitMax):
+			t.Errorf("c05 via: the queue did not attempt message %d within %v: %s", mi, c05WaitMax, h.Op())
+			return nil
+		}
+		r.mu.Lock()
+		o.handed = &r.handed
+		for i, a := range addrs {
+			e, seen := r.rcpt[a]
+			switch {
+			case !seen:
+				o.rcpt[i] = "notried"
+			case e == nil && r.hasSt[a]:
+				e = r.status[a]
+				o.rcpt[i] = c05Cls(e)
+			case e == nil:
+				o.rcpt[i] = "nostatus"
+			default:
+				o.rcpt[i] = c05Cls(e)
+			}
+			if e != nil {
+				o.errs[i] = e.Error()
+			}
+		}
+		r.mu.Unlock()
+		obs = append(obs, o)
 	}
 	return obs
 }
@@ -1268,7 +1715,11 @@ func c05Observation(h c05Hist, obs []c05MsgObs, events []c05Event) string {
 		var ds []string
 		for _, e := range events {
 			if e.msg == mi && e.kind == "data" {
-				ds = append(ds, fmt.Sprintf("%d.%s.%s.%s", e.srv, c05b(e.tls), c05b(e.rtParm), c05b(e.reused)))
+				item := fmt.Sprintf("%d.%s.%s.%s", e.srv, c05b(e.tls), c05b(e.rtParm), c05b(e.reused))
+				if h.front != 0 {
+					item += "." + c05b(e.utf8)
+				}
+				ds = append(ds, item)
 			}
 		}
 		sort.Strings(ds)
@@ -1319,6 +1770,9 @@ func c05Governing(m c05MX) (string, byte) {
 			return "unusable", kind
 		}
 		return "usable", kind
+	}
+	if m.fam == 'x' {
+		return "none", 0 // no address records: nothing to connect to, no TLSA lookup (RFC 7672 2.2.2: the MX host is skipped)
 	}
 	switch m.alias {
 	case 0:
@@ -1509,6 +1963,10 @@ func c05Monitor(out *vh.Out, h c05Hist, obs []c05MsgObs, events []c05Event) {
 			out.Violation("C05/data-on-unsatisfying-conn/"+kind+"/"+strings.Join(bad, "+"), op,
 				fmt.Sprintf("message %d (%s) content reached server %d (tls=%v) on a %s connection; unmet: %v", e.msg, m, e.srv, e.tls, kind, bad))
 		}
+		if h.front != 0 && e.utf8 != m.utf8 {
+			out.Violation("C05/queued-metadata-not-final/smtputf8-parameter", op,
+				fmt.Sprintf("message %d: MAIL to server %d had SMTPUTF8=%v, the message's meta-data said %v when the body stage ended", e.msg, e.srv, e.utf8, m.utf8))
+		}
 		toDom := false
 		for _, r := range m.rcpts {
 			toDom = toDom || r == di
@@ -1520,6 +1978,25 @@ func c05Monitor(out *vh.Out, h c05Hist, obs []c05MsgObs, events []c05Event) {
 	for mi, m := range h.msgs {
 		if obs[mi].victim {
 			continue // cancelled and aborted by its caller: no status to judge (its DATA events, if any, were judged above)
+		}
+		// through the queue: the policy inputs the remote target is started with are the ones the message had when the
+		// body stage ended
+		if hd := obs[mi].handed; hd != nil {
+			var stale []string
+			fin := m.final()
+			for _, x := range []struct {
+				name     string
+				got, exp bool
+			}{{"quarantine", hd.quarantine, fin.quarantine}, {"requiretls", hd.requireTLS, fin.requireTLS},
+				{"tls-required-no", hd.tlsNo, fin.tlsNo}, {"smtputf8", hd.utf8, fin.utf8}} {
+				if x.got != x.exp {
+					stale = append(stale, x.name)
+				}
+			}
+			if len(stale) > 0 {
+				out.Violation("C05/queued-metadata-not-final/"+strings.Join(stale, "+"), op,
+					fmt.Sprintf("message %d: the queue started the remote target with %s, the source's meta-data was %s when the body stage ended", mi, *hd, fin))
+			}
 		}
 		f := c05PoliciesInForce(h.cfg, m)
 		for i, di := range m.rcpts {
@@ -1598,6 +2075,13 @@ func c05GenMX(r *vh.Rng, srv int) c05MX {
 		reqtls:   r.Chance(60),
 		slow:     r.Chance(4),
 	}
+	// address families of the host: IPv6-only, dual-stack, no address at all
+	switch k := r.Intn(100); {
+	case k < 14:
+		m.fam = '6'
+	case k < 27:
+		m.fam = 'b'
+	}
 	// the presented chain: a further certificate (the genuine MX's, or a foreign CA's) after / between leaf and issuer
 	if r.Chance(25) {
 		m.chain = byte('1' + r.Intn(6))
@@ -1638,6 +2122,9 @@ func c05GenMX(r *vh.Rng, srv int) c05MX {
 // MX's certificate; the authenticated RRset pins the genuine certificate (DANE-EE) — or a certificate off the path (DANE-TA)
 func c05Impostor(r *vh.Rng, m *c05MX) {
 	m.up, m.starttls, m.aAD, m.tlsaAD = true, 'o', true, true
+	if m.fam == 'x' {
+		m.fam = 'b'
+	}
 	m.cert = "uuwv"[r.Intn(4)]
 	m.chain = byte('1' + r.Intn(3))
 	m.tlsa = 'p'
@@ -1681,6 +2168,9 @@ func c05GenHist(r *vh.Rng) c05Hist {
 			for i := range h.doms[di].mxs {
 				m := &h.doms[di].mxs[i]
 				m.up = true
+				if m.fam == 'x' {
+					m.fam = '6'
+				}
 				if r.Chance(70) {
 					m.starttls, m.cert = 'o', 'v'
 				}
@@ -1779,6 +2269,9 @@ func c05GenConc(r *vh.Rng) c05Hist {
 		for i := range h.doms[0].mxs {
 			m := &h.doms[0].mxs[i]
 			m.up = true
+			if m.fam == 'x' {
+				m.fam = 0
+			}
 			if m.starttls == 'c' || m.starttls == 'h' {
 				m.starttls = 'o'
 			}
@@ -1817,6 +2310,57 @@ func c05GenConc(r *vh.Rng) c05Hist {
 	}
 	if !c05ConcOK(h) {
 		panic("c05GenConc: ill-formed batch " + h.Op())
+	}
+	return h
+}
+
+// a history that reaches the remote target through the queue (front q: the harness plays msgpipeline; front p: the real
+// msgpipeline with the scripted check): the policy inputs change between Start and the end of the body stage
+func c05GenVia(r *vh.Rng) c05Hist {
+	h := c05GenHist(r)
+	h.front = "qqqpp"[r.Intn(5)]
+	if r.Chance(60) { // servers that accept mail: a stale flag shows as content that must not be there
+		for di := range h.doms {
+			for i := range h.doms[di].mxs {
+				m := &h.doms[di].mxs[i]
+				m.up = true
+				if m.fam == 'x' {
+					m.fam = 0
+				}
+				if m.starttls == 'c' {
+					m.starttls = 'o'
+				}
+			}
+		}
+	}
+	n := 1 + r.Intn(2)
+	h.msgs = nil
+	for i := 0; i < n; i++ {
+		m := c05GenMsg(r)
+		fin := c05Flags{m.requireTLS, m.tlsNo, r.Chance(40), r.Chance(30)}
+		init := fin
+		if r.Chance(50) {
+			init.requireTLS = !fin.requireTLS
+		}
+		if r.Chance(50) {
+			init.tlsNo = !fin.tlsNo
+		}
+		if r.Chance(40) {
+			init.utf8 = !fin.utf8
+		}
+		via := &c05MsgVia{}
+		if fin.quarantine && r.Chance(80) {
+			init.quarantine = false
+			if h.front == 'p' {
+				via.stage = "csrbb"[r.Intn(5)]
+			}
+		}
+		via.init = init
+		m.quarantine, m.utf8, m.via = 0, fin.utf8, via
+		if fin.quarantine {
+			m.quarantine = 1
+		}
+		h.msgs = append(h.msgs, m)
 	}
 	return h
 }
@@ -1921,6 +2465,13 @@ func c05FixedOps() []string {
 		// unsigned CNAME RRset: DANE does not apply / the CNAME-type query fails: deferred
 		"C05 hist 0010.-.10.10 0a:1.1.o.v.0.1.1.m.0.0.im10 0a:3.1.o.v.0.1.1.n.0.0.in01 000:0,1",
 		"C05 hist 0010.-.10.10 0a:1.1.o.v.0.0.1.n.0.0.sn01 0a:3.1.o.v.0.0.0.n.0.0.se10 000:0,1",
+		// address families of the MX host.  IPv6-only host in a signed zone: the records found there are enforced
+		// (mismatch: refused; DANE-EE match: a self-signed server is authenticated; second candidate; alias whose
+		// canonical host is IPv6-only; TLSA lookup failure: deferred); dual-stack host
+		"C05 hist 0010.-.10.10 0a:1.16.o.v.0.1.1.m.0.0 0a:3.1b.s.v.0.1.1.e.0.0 000:0,1",
+		"C05 hist 0010.20.10.10 0a:1.16.o.u.0.1.1.e.0.0 0a:3.16.o.u.0.1.1.m.0.0.sn10 000:0,1",
+		"C05 hist 1010.-.10.10 0t:1.06.o.v.1.1.1.n.0.0;2.16.s.v.1.1.1.t.0.0 1a:3.16.o.w.0.1.1.u.1.0 000:0/100:1,0",
+		"C05 hist 0010.-.10.10 0a:1.1b.o.v.0.1.1.n.0.0 0a:3.16.o.v.0.1.1.f.0.0 000:0,1/100:1",
 		// DANE pins the END-ENTITY certificate.  An impostor (own key; unknown issuer / wrong name / even PKIX-valid)
 		// sends the genuine MX's certificate after its own: [leaf, G], [leaf, issuer, G], [leaf, G, issuer]; the
 		// authenticated RRset is the DANE-EE record of G.  Refused, also under min_tls_level authenticated / REQUIRETLS,
@@ -1934,6 +2485,17 @@ func c05FixedOps() []string {
 		"C05 hist 0010.20.10.10 0a:1.1.o.u.0.1.1.i.0.0 0a:3.1.o.v6.0.1.1.i.0.0 000:0,1",
 		"C05 hist 0010.-.10.10 0a:1.1.o.u5.0.1.1.a.0.0 0a:3.1.o.u2.0.1.1.a.0.0 000:0,1",
 		"C05 hist 0010.20.10.10 0a:1.1.o.u6.0.1.1.t.0.0 0a:3.1.o.w3.0.1.1.t.0.0 000:0,1",
+		// THROUGH THE QUEUE.  The quarantine decision falls at the body stage, after the queue delivery was started (the
+		// harness as msgpipeline / the real msgpipeline with a check that asks for it at the connection, sender,
+		// recipient, body stage): nothing is relayed
+		"C05 via q 0000.-.10.10 0a:1.1.o.v.0.0.0.n.0.0 0a:3.1.o.v.0.0.0.n.0.0 0000>0010:0,1/0000>0000:0",
+		"C05 via p 0000.-.10.10 0a:1.1.o.v.0.0.0.n.0.0 0a:3.1.o.v.0.0.0.n.0.0 0000>0010@b:0/0000>0010@c:1/0000>0010@s:0/0000>0010@r:0,1/0000>0000:1",
+		"C05 via p 1011.21.11.10 1e:1.1.o.v.1.1.1.e.1.0 0t:3.16.o.v.1.1.1.n.0.0 0100>0110@r:0,1/1000>1010@b:0",
+		// REQUIRETLS / TLS-Required: No / SMTPUTF8 as they are when the body stage ends: REQUIRETLS raised late (plaintext
+		// MX refused, parameter forwarded), the override granted late / taken back (strong policies, plaintext MX)
+		"C05 via q 0001.-.10.10 1a:1.1.s.v.0.0.0.n.0.0 1a:3.1.o.v.0.0.0.n.1.0 0000>1000:0,1/1000>0000:0",
+		"C05 via p 1011.21.11.10 1e:1.1.s.v.0.1.1.n.0.0 0a:3.1.o.v.0.0.0.n.0.0 0000>0100:0/0100>0000:0",
+		"C05 via q 0000.-.10.10 0a:1.1.o.v.0.0.0.n.0.0 0a:3.1.o.v.0.0.0.n.0.0 0000>0001:0/0001>0000:1",
 		// OVERLAPPING deliveries.  Enforce-mode MTA-STS, the only MX is not listed (or does not verify): two / three
 		// deliveries start while the policy fetch is in flight, the first / the last one is cancelled / times out
 		"C05 conc 1000.-.10.10 0e:1.1.o.v.0.0.0.n.0.0 0a:3.1.o.v.0.0.0.n.0.0 sc20 000:0/000:0",
@@ -1985,6 +2547,7 @@ func c05Factors(h c05Hist) []string {
 		"msg=" + c05b(msg.requireTLS) + c05b(msg.tlsNo) + strconv.Itoa(msg.quarantine),
 		"alias=" + c05AliasTag(m), c05AliasFactor(m, "tlsaI", string(m.tlsaI)), c05AliasFactor(m, "tlsaIAD", c05b(m.tlsaIAD)),
 		c05AliasFactor(m, "cnameErr", c05b(m.cnameErr)),
+		"fam=" + string(rune(m.fam+'4'*c05b2i(m.fam == 0))),
 	}
 }
 
@@ -2003,7 +2566,7 @@ func c05AliasFactor(m c05MX, name, val string) string {
 }
 
 // number of values of each factor, in the order of c05Factors
-var c05FactorSizes = []int{2, 2, 2, 10, 2, 2, 3, 2, 4, 2, 2, 4, 3, 2, 2, 2, 9, 2, 7, 12, 3, 10, 3, 3}
+var c05FactorSizes = []int{2, 2, 2, 10, 2, 2, 3, 2, 4, 2, 2, 4, 3, 2, 2, 2, 9, 2, 7, 12, 3, 10, 3, 3, 3}
 
 func c05b2i(b bool) byte {
 	if b {
@@ -2063,6 +2626,25 @@ func c05OneCase(t *testing.T, out *vh.Out, pki *c05PKI, h c05Hist, rng *vh.Rng, 
 	}
 	if pooledUse {
 		out.Stat("c05.hist.with-reuse")
+	}
+	if h.front != 0 {
+		for mi, m := range h.msgs {
+			ch := ""
+			for i, x := range [][2]bool{{m.via.init.requireTLS, m.requireTLS}, {m.via.init.tlsNo, m.tlsNo}, {m.via.init.quarantine, m.quarantine != 0}, {m.via.init.utf8, m.utf8}} {
+				if x[0] != x[1] {
+					ch += string("rnqu"[i])
+				}
+			}
+			out.Stat(fmt.Sprintf("c05.via.front=%c.changed-after-start=%s", h.front, ch))
+			if m.via.stage != 0 {
+				out.Stat(fmt.Sprintf("c05.via.check-quarantines-at=%c", m.via.stage))
+			}
+			got := false
+			for _, e := range events {
+				got = got || (e.msg == mi && e.kind == "data")
+			}
+			out.Stat(fmt.Sprintf("c05.via.final-quarantine=%s.content-sent=%s", c05b(m.quarantine != 0), c05b(got)))
+		}
 	}
 	if c := h.conc; c != nil {
 		out.Stat(fmt.Sprintf("c05.conc.gate=%c.end=%c", c.gate, c.kind))
@@ -2159,6 +2741,7 @@ func c05DeliveryStats(out *vh.Out, h c05Hist, events []c05Event) {
 		out.Stat(fmt.Sprintf("c05.deliver.mx-candidate=%d/%d", pos+1, len(h.doms[di].mxs)))
 		out.Stat(fmt.Sprintf("c05.deliver.starttls=%c.cert=%c.tls=%s", mx.starttls, mx.cert, c05b(e.tls)))
 		f := c05PoliciesInForce(h.cfg, m)
+		out.Stat(fmt.Sprintf("c05.deliver.addr-family=%c.dane-discovery=%s", mx.fam+'4'*c05b2i(mx.fam == 0), map[bool]string{true: c05Discovery(mx), false: "-"}[f.dane]))
 		if e.tls && mx.cert != 'v' && ((f.local && h.cfg.minTLS == 2) || m.requireTLS) {
 			out.Stat("c05.deliver.authenticated-by-dane-only")
 		}
@@ -2286,6 +2869,11 @@ func TestVerifC05(t *testing.T) {
 		out.Stat("c05.random")
 	}
 	pw.report(out)
+	// through the queue / msgpipeline + queue (one tenth of the random histories)
+	for i := 0; i < n/10; i++ {
+		c05OneCase(t, out, pki, c05GenVia(rng.Fork()), rng, false)
+		out.Stat("c05.random-via")
+	}
 	// overlapping deliveries (one tenth of the random histories)
 	for i := 0; i < n/10; i++ {
 		c05OneCase(t, out, pki, c05GenConc(rng.Fork()), rng, false)
